@@ -63,6 +63,15 @@ fn judge(o: &mut CaseOutcome, tree: &Tree, files: &[(String, Vec<u8>)], fr: &Fau
             hit_write_path = true;
         }
     }
+    // An injected failure that (in THIS run) hit the reading of a source file instead of the write path
+    // makes that file unreadable: it is reported and skipped, and the exit status of such a run is not
+    // specified by C08. (Happens only with a subject whose operation order varies from run to run.)
+    let hit_source_read = fr.run.trace.iter().any(|t| t.inj == "fail" && (t.kind == "open" || t.kind == "read") && !is_scratch(&t.path) && t.path.contains("/proj/src/") && (t.kind == "read" || (t.flags & 3) == 0));
+    if hit_source_read
+    {
+        o.class("injected-failure-hit-a-source-read-instead");
+        return;
+    }
     let exited = matches!(fr.run.exit, Exit::Code(_));
     let mut fail = |o: &mut CaseOutcome, sig: &str, msg: String| {
         if seen.insert(sig.to_string())
